@@ -136,6 +136,9 @@ pub struct Response {
     /// heap statistics after dropping the Vm and forcing a collection
     #[serde(default, skip_serializing_if = "Option::is_none")]
     pub heap_after_drop: Option<HeapDump>,
+    /// heap statistics taken (after a forced collection) each time the program called `heap_probe()`
+    #[serde(default, skip_serializing_if = "Vec::is_empty")]
+    pub probes: Vec<HeapDump>,
     #[serde(default, skip_serializing_if = "Vec::is_empty")]
     pub alloc_log: Vec<(u8, usize, usize, usize, usize)>,
     #[serde(default, skip_serializing_if = "Vec::is_empty")]
